@@ -18,7 +18,7 @@
     found) by the search only; the graph layer is covered by the C06 theorems restated at the end. *)
 From Coq Require Import String.
 From WacV Require Import Str StrLit Token Lexer LexTables LexImpl Semver Ast Parser.
-From WacV Require Import NoPanicLexer NoPanicSpans NoPanicParser NoPanicTop NoPanicDepth.
+From WacV Require Import NoPanicLexer NoPanicSpans NoPanicParser NoPanicTop NoPanicDepth NoPanicDepthBound NoPanicPkgPath.
 From WacV Require Import Graph GraphInv GraphSteps GraphTheorems GraphLive GraphRank.
 From Coq Require Import Lia.
 Local Open Scope nat_scope.
@@ -96,6 +96,17 @@ Theorem expected_tokens_nonempty src at_ found sp :
 Proof. exact (expected_nonempty_lemma src at_ found sp). Qed.
 Print Assumptions expected_tokens_nonempty.
 
+(** The one slice of the parser that [Parser.v] models as a total function rather than as a panic outcome,
+    [&s[slash + 1..at]] in [PackagePath::parse]: on every package-path token the lexer can produce the first
+    [/] exists and lies at least two characters before the first [@] (if any), so the slice bounds are
+    ordered and the [find('/').unwrap()] succeeds. *)
+Theorem package_path_slice_never_panics src t :
+  In (LTok t) (lex impl_cfg src) -> tk t = TPackagePath ->
+  exists slash, find_char c_slash (ttext t) = Some slash /\
+    match find_char c_atsign (ttext t) with Some at_ => S (S slash) <= at_ | None => True end.
+Proof. exact (package_path_slice_never_panics_lemma src t). Qed.
+Print Assumptions package_path_slice_never_panics.
+
 (* ------------------------------------------------------------------ spans *)
 
 (** [spans_in_bounds]. FULL statement (property text): every span carried by a node of a returned tree
@@ -146,6 +157,14 @@ Proof.
   destruct (deep_parse d) as (doc & E & Hd). rewrite E, Hd. lia.
 Qed.
 Print Assumptions depth_unbounded.
+
+(** [rec_depth] measures recursion: an expression of nesting depth [n] is never returned by the
+    expression parser with fewer than [n] units of recursion fuel, i.e. with fewer than [n] nested
+    activations of [Expr::parse]. *)
+Theorem depth_is_recursion_depth e f ts x r :
+  parse_expr_f f e ts = POk x r -> expr_depth x <= f.
+Proof. exact (parse_expr_f_depth e f ts x r). Qed.
+Print Assumptions depth_is_recursion_depth.
 
 (* ------------------------------------------------------------------ graph layer (C06) *)
 
